@@ -1,0 +1,110 @@
+//go:build verif
+
+package transport
+
+import (
+	"context"
+	"sort"
+
+	"github.com/lni/dragonboat/v4/internal/vfs"
+	pb "github.com/lni/dragonboat/v4/raftpb"
+)
+
+// White-box access for the C15 verification harness (snapshot chunk
+// transfer). Compiled only with -tags verif.
+
+// VerifTrackedInfo is a copy of one entry of Chunk.tracked.
+type VerifTrackedInfo struct {
+	Key   string
+	Next  uint64
+	From  uint64
+	Tick  uint64
+	Files int
+}
+
+// VerifTracked returns the tracked streams of the receiver sorted by key.
+func VerifTracked(c *Chunk) []VerifTrackedInfo {
+	c.mu.Lock()
+	defer c.mu.Unlock()
+	out := make([]VerifTrackedInfo, 0, len(c.tracked))
+	for k, td := range c.tracked {
+		out = append(out, VerifTrackedInfo{Key: k, Next: td.next,
+			From: td.first.From, Tick: td.tick, Files: len(td.files)})
+	}
+	sort.Slice(out, func(i, j int) bool { return out[i].Key < out[j].Key })
+	return out
+}
+
+// VerifChunkTick returns the logical clock of the receiver.
+func VerifChunkTick(c *Chunk) uint64 { return c.getTick() }
+
+// VerifSetChunkTimers overrides the gc interval and the stream timeout.
+func VerifSetChunkTimers(c *Chunk, gcTick uint64, timeout uint64) {
+	c.gcTick = gcTick
+	c.timeout = timeout
+}
+
+// VerifChunkTimers returns the gc interval and the stream timeout in use.
+func VerifChunkTimers(c *Chunk) (uint64, uint64) { return c.gcTick, c.timeout }
+
+// VerifSetSnapshotChunkSize overrides the sender side chunk size and returns
+// the previous value.
+func VerifSetSnapshotChunkSize(sz uint64) uint64 {
+	old := snapshotChunkSize
+	snapshotChunkSize = sz
+	return old
+}
+
+// VerifSetMaxConcurrentSlot overrides the receiver slot limit and returns the
+// previous value.
+func VerifSetMaxConcurrentSlot(n uint64) uint64 {
+	old := maxConcurrentSlot
+	maxConcurrentSlot = n
+	return old
+}
+
+// VerifGetChunks is getChunks.
+func VerifGetChunks(m pb.Message) []pb.Chunk { return getChunks(m) }
+
+// VerifLoadChunkData is loadChunkData.
+func VerifLoadChunkData(chunk pb.Chunk, data []byte, fs vfs.IFS) ([]byte, error) {
+	return loadChunkData(chunk, data, fs)
+}
+
+type verifConn struct {
+	send func(pb.Chunk) error
+}
+
+func (v *verifConn) Close() {}
+func (v *verifConn) SendChunk(c pb.Chunk) error {
+	return v.send(c)
+}
+
+// VerifSendSnapshot runs the file mode sender (splitSnapshotMessage, job
+// .addSnapshot, job.process -> sendSnapshot -> sendChunks -> loadChunkData) on
+// a connection that hands every chunk to send. The Data slice handed to send
+// is only valid during the call.
+func VerifSendSnapshot(m pb.Message, did uint64, fs vfs.IFS,
+	send func(pb.Chunk) error) error {
+	chunks, err := splitSnapshotMessage(m, fs)
+	if err != nil {
+		return err
+	}
+	j := newJob(context.Background(), m.ShardID, m.To, did, false, len(chunks),
+		nil, make(chan struct{}), fs)
+	j.conn = &verifConn{send: send}
+	j.addSnapshot(chunks)
+	return j.process()
+}
+
+// VerifStreamJob starts a streaming mode job on a connection that hands every
+// chunk to send; the returned function waits for the job to end.
+func VerifStreamJob(shardID uint64, replicaID uint64, did uint64, fs vfs.IFS,
+	send func(pb.Chunk) error) (*Sink, func() error) {
+	j := newJob(context.Background(), shardID, replicaID, did, true, 0,
+		nil, make(chan struct{}), fs)
+	j.conn = &verifConn{send: send}
+	done := make(chan error, 1)
+	go func() { done <- j.process() }()
+	return &Sink{j: j}, func() error { return <-done }
+}
